@@ -402,6 +402,21 @@ fn diff_sig(a: &Value, b: &Value) -> String {
     "none".into()
 }
 
+fn append_bytes(path: &std::path::Path, bytes: &[u8]) {
+    use std::io::Write;
+    if let Ok(mut f) = std::fs::OpenOptions::new().append(true).open(path) {
+        let _ = f.write_all(bytes);
+    }
+}
+
+fn chop(path: &std::path::Path, n: u64) {
+    if let Ok(f) = std::fs::OpenOptions::new().write(true).open(path) {
+        if let Ok(len) = f.metadata().map(|m| m.len()) {
+            let _ = f.set_len(len.saturating_sub(n));
+        }
+    }
+}
+
 fn run(case: &Case) -> CaseReport {
     let mut rep = CaseReport::new();
     rv::fuel::install();
@@ -460,6 +475,30 @@ fn run(case: &Case) -> CaseReport {
             ("e_snapshots_removed", Box::new(|| {
                 let f = sb.fork("c08e");
                 let _ = std::fs::remove_dir_all(f.data.join("snapshots"));
+                f
+            })),
+            // read-path forcing: an unterminated last line (what a crashed cache append leaves)
+            // makes one sidecar unusable, so the compile input comes from the next read path
+            // (messages+runs sidecar window -> full sidecar window -> replay)
+            ("g_mr_sidecar_torn_tail", Box::new(|| {
+                let f = sb.fork("c08g");
+                append_bytes(&f.streams_dir().join(format!("{tid}.mr.v1.jsonl")), b"{\"id\":\"torn");
+                f
+            })),
+            ("h_mr_sidecar_cut_mid_line", Box::new(|| {
+                let f = sb.fork("c08h");
+                chop(&f.streams_dir().join(format!("{tid}.mr.v1.jsonl")), 7);
+                f
+            })),
+            ("i_full_sidecar_torn_tail", Box::new(|| {
+                let f = sb.fork("c08i");
+                append_bytes(&f.streams_dir().join(format!("{tid}.jsonl")), b"{\"id\":\"torn");
+                f
+            })),
+            ("j_both_sidecars_torn_tail", Box::new(|| {
+                let f = sb.fork("c08j");
+                append_bytes(&f.streams_dir().join(format!("{tid}.mr.v1.jsonl")), b"{\"id\":\"torn");
+                append_bytes(&f.streams_dir().join(format!("{tid}.jsonl")), b"{\"id\":\"torn");
                 f
             })),
         ];
